@@ -69,11 +69,22 @@ func (ex *Exec) bigSet(sv *StructV, neg, mag *Term) {
 	// zero is never negative
 	isZero := ex.ts.Cmp(OpEq, mag, ex.ts.Const(bigBits, 0))
 	neg = ex.ts.And(neg, ex.ts.Not(isZero))
+	sv.f[0] = neg
+	// like nat.make: the receiver's word array is reused when it has room (so a receiver that
+	// shares its words with another big.Int — SetBits(x.Bits()) — writes through to it), a new one
+	// is allocated otherwise
+	if old, ok := sv.f[1].(*SliceV); ok && old.arr != nil && old.cap >= bigWords {
+		ex.noteWrite(old.arr.own)
+		for i := 0; i < bigWords; i++ {
+			old.arr.e[old.off+i] = ex.ts.Extract(mag, uint16(64*i+63), uint16(64*i))
+		}
+		sv.f[1] = &SliceV{arr: old.arr, off: old.off, len: bigWords, cap: old.cap}
+		return
+	}
 	arr := ex.newArray(types.Typ[types.Uint], bigWords, "big.Int words")
 	for i := 0; i < bigWords; i++ {
 		arr.e[i] = ex.ts.Extract(mag, uint16(64*i+63), uint16(64*i))
 	}
-	sv.f[0] = neg
 	sv.f[1] = &SliceV{arr: arr, off: 0, len: bigWords, cap: bigWords}
 }
 
